@@ -7,8 +7,10 @@ from .guards import label, outcome_of, norm_cond, row_str
 MAXSIZEOF = "epserde::traits::type_info::MaxSizeOf"
 
 
-def rule_M1(u, rep, crate="wunits"):
-    """unit(T) is a power of two, >= align_of(T), >= unit of every component."""
+def rule_M1(u, rep, crate="wunits", mode="full"):
+    """unit(T) is a power of two, >= align_of(T), >= unit of every component.
+    mode="borrow": only what an aligned reference needs -- unit(T) is a multiple of align_of(T) (an address that is a
+    multiple of the unit is then aligned for T); used by the properties that do not speak about gaps (C03, C12)."""
     cp = constp.ConstP(u)
     n = 0
     for k, (c, aj) in sorted(u.aliases.items()):
@@ -24,17 +26,24 @@ def rule_M1(u, rep, crate="wunits"):
         n += 1
         if v is None:
             rep.oblige(False)
-            rep.add("M1", "fold:" + ctor(T), "alignment unit of `%s` cannot be folded to a constant: %s" % (name, cp.errors.get(T)))
+            rep.add("M1", "fold:" + name, "alignment unit of `%s` cannot be folded to a constant: %s" % (name, cp.errors.get(T)))
+            continue
+        if mode == "borrow":
+            if l is not None:
+                ok = v >= 1 and v % l["align"] == 0
+                rep.oblige(ok)
+                if not ok:
+                    rep.add("M1", "align:" + name, "alignment unit of `%s` is %d, not a multiple of its native alignment %d: an address that is a multiple of the unit need not be aligned for the type" % (name, v, l["align"]))
             continue
         ok = v >= 1 and (v & (v - 1)) == 0
         rep.oblige(ok)
         if not ok:
-            rep.add("M1", "pow2:" + ctor(T), "alignment unit of `%s` is %d, not a power of two >= 1" % (name, v))
+            rep.add("M1", "pow2:" + name, "alignment unit of `%s` is %d, not a power of two >= 1" % (name, v))
         if l is not None:
             ok = v >= l["align"]
             rep.oblige(ok)
             if not ok:
-                rep.add("M1", "align:" + ctor(T), "alignment unit of `%s` is %d, smaller than its native alignment %d" % (name, v, l["align"]))
+                rep.add("M1", "align:" + name, "alignment unit of `%s` is %d, smaller than its native alignment %d" % (name, v, l["align"]))
         for ct in constp.components(u, T):
             cv = cp.unit(ct)
             if cv is None:
@@ -42,7 +51,7 @@ def rule_M1(u, rep, crate="wunits"):
             ok = v >= cv
             rep.oblige(ok)
             if not ok:
-                rep.add("M1", "field:" + ctor(T), "alignment unit of `%s` is %d, smaller than the unit %d of its component `%s`" % (name, v, cv, ty_str(ct)))
+                rep.add("M1", "field:" + name, "alignment unit of `%s` is %d, smaller than the unit %d of its component `%s`" % (name, v, cv, ty_str(ct)))
         if len(rep.samples) < 6 and T[0] in ("adt", "tuple") and n % 17 == 0:
             rep.sample({"type": name, "unit": v, "align_of": l["align"] if l else None, "size_of": l["size"] if l else None})
     rep.count("closed_types_folded", n)
